@@ -435,7 +435,7 @@ func runC20(s *kernel.Sim) {
 	s.Go("director", func() {
 		defer func() { done = true }()
 		for i := 0; i < nops && !s.Violated(); i++ {
-			switch op := s.TaskChoose("director", "op", 12); {
+			switch op := s.TaskChoose("director", "op", 13); {
 			case op <= 2: // Start (fresh, again while running, or with the pool failing at connect)
 				failConnect := !running && s.TaskChoose("director", "failconnect", 4) == 0
 				if failConnect {
@@ -529,6 +529,80 @@ func runC20(s *kernel.Sim) {
 				default:
 					s.Violate("stop", "Wait does not return after Stop", "#%d: still blocked after Stop returned", i)
 					return
+				}
+				running = false
+				u0 := updates()
+				s.Sleep("director", 2*interval+interval/2)
+				settle()
+				if n := updates() - u0; n != 0 {
+					s.Violate("stop", "keep-alives continue after Stop", "#%d: %d keep-alives after Stop", i, n)
+					return
+				}
+			case op == 12 && running: // the pool never answers the next keep-alive: the agent must remain stoppable
+				if !drainWaits(i) {
+					return
+				}
+				waitDone := make(chan error, 1)
+				stopDone := make(chan struct{})
+				waits++
+				s.GoBG(fmt.Sprintf("waiter%d", waits), func() { waitDone <- a.Wait() })
+				sp.Lock()
+				if sp.SilentNext == nil {
+					sp.SilentNext = map[string]int{}
+				}
+				sp.SilentNext["Update"] = 1
+				sp.Unlock()
+				s.Sleep("director", interval+interval/3) // the tick fires, the keep-alive is out and unanswered
+				waits++
+				s.GoBG(fmt.Sprintf("stopper%d", waits), func() { a.Stop(); close(stopDone) })
+				// whatever bound the agent puts on a keep-alive, a minute is beyond it
+				s.Sleep("director", time.Minute)
+				settle()
+				stopped := false
+				select {
+				case <-stopDone:
+					stopped = true
+				default:
+				}
+				var werr error
+				waited := false
+				select {
+				case werr = <-waitDone:
+					waited = true
+				default:
+				}
+				s.TaskLog("director", "#%d unanswered keep-alive: Stop returned=%v, Wait returned=%v (%v)", i, stopped, waited, werr)
+				if !waited {
+					s.Violate("stop", "an unanswered keep-alive leaves an agent that cannot be stopped", "#%d: a minute after the pool failed to answer one keep-alive and Stop was called: Stop returned=%v, Wait returned=%v", i, stopped, waited)
+					return
+				}
+				if !stopped {
+					// the loop ended on its own (the keep-alive timed out) before it could take the stop signal:
+					// that Stop stays pending by design and ends the next run at once - give it one
+					sp.Lock()
+					sp.SilentNext["Update"] = 0
+					sp.Unlock()
+					waits++
+					w2 := make(chan error, 1)
+					s.GoBG(fmt.Sprintf("waiter%d", waits), func() { w2 <- a.Wait() })
+					if err := a.Start(sp); err != nil {
+						s.Violate("restart", "Start after the loop ended on an unanswered keep-alive is refused", "#%d: %v", i, err)
+						return
+					}
+					s.Sleep("director", time.Millisecond)
+					settle()
+					select {
+					case <-stopDone:
+					default:
+						s.Violate("stop", "a pending Stop is never taken", "#%d", i)
+						return
+					}
+					select {
+					case <-w2:
+					default:
+						s.Violate("stop", "Wait does not return after Stop", "#%d: after the pending Stop ended the restarted loop", i)
+						return
+					}
 				}
 				running = false
 				u0 := updates()
